@@ -529,3 +529,71 @@ theorem blasListMixed1_facts (n m : Nat) (h1 : m < n) :
       | (have : 2 * n - 1 - F = 1 := by omega); rw [this]; rfl
 
 end SFV.Fock
+
+/-! ### locality in the Fock representation (C05) and Hermiticity (C07) -/
+namespace SFV.Fock
+open Finset
+
+section local1
+variable {K : Type} [CommSemiring K]
+
+theorem upd_upd_same (idx : Idx) (p a b : Nat) : upd (upd idx p a) p b = upd idx p b := by
+  funext x; unfold upd; split <;> rfl
+
+theorem upd_comm (idx : Idx) {p q : Nat} (h : p ≠ q) (a b : Nat) :
+    upd (upd idx p a) q b = upd (upd idx q b) p a := by
+  funext x; unfold upd
+  by_cases h1 : x = q <;> by_cases h2 : x = p
+  · exact absurd (h2.symm.trans h1) h
+  · simp [h1, h2]; intro hq; exact absurd hq.symm h
+  · simp [h1, h2]; intro hq; exact absurd hq h
+  · simp [h1, h2]
+
+theorem upd_self_p (idx : Idx) (p a : Nat) : upd idx p a p = a := by simp [upd]
+theorem upd_other (idx : Idx) {p q : Nat} (h : q ≠ p) (a : Nat) : upd idx p a q = idx q := by simp [upd, h]
+
+/-- entry of `U ρ U†` on mode `m` (row axis `2m`, column axis `2m+1`) -/
+theorem conj1_entry (D : Nat) (mat matc : Nat → Nat → K) (m : Nat) (ρ : Tens K) (idx : Idx) :
+    applyAt1 D matc (2 * m + 1) (applyAt1 D mat (2 * m) ρ) idx =
+      ∑ b ∈ range D, ∑ a ∈ range D,
+        matc (idx (2 * m + 1)) b * (mat (idx (2 * m)) a * ρ (upd (upd idx (2 * m) a) (2 * m + 1) b)) := by
+  simp only [applyAt1, sumTo_eq_sum]
+  refine Finset.sum_congr rfl fun b _ => ?_
+  rw [Finset.mul_sum]
+  refine Finset.sum_congr rfl fun a _ => ?_
+  rw [upd_other idx (by omega : 2 * m ≠ 2 * m + 1) b, upd_comm idx (by omega : 2 * m + 1 ≠ 2 * m) b a]
+
+/-- **locality**: if `U†U = 1` on the truncated space (`Σ_v U[v,a]·conj U[v,b] = δ_ab`), then tracing
+out the target mode after `ρ ↦ U ρ U†` gives the same reduced state of all other modes as before. -/
+theorem trace_conj1 (D : Nat) (mat matc : Nat → Nat → K) (m : Nat)
+    (hiso : ∀ a b, a < D → b < D → (∑ v ∈ range D, mat v a * matc v b) = if a = b then 1 else 0)
+    (ρ : Tens K) (idx : Idx) :
+    (∑ v ∈ range D, applyAt1 D matc (2 * m + 1) (applyAt1 D mat (2 * m) ρ)
+        (upd (upd idx (2 * m) v) (2 * m + 1) v)) =
+      ∑ v ∈ range D, ρ (upd (upd idx (2 * m) v) (2 * m + 1) v) := by
+  have h01 : 2 * m ≠ 2 * m + 1 := by omega
+  have key : ∀ v a b, upd (upd (upd (upd idx (2 * m) v) (2 * m + 1) v) (2 * m) a) (2 * m + 1) b
+      = upd (upd idx (2 * m) a) (2 * m + 1) b := by
+    intro v a b
+    rw [upd_comm (upd idx (2 * m) v) h01.symm v a, upd_upd_same, upd_upd_same]
+  simp only [conj1_entry, key, upd_self_p, upd_other _ h01.symm, upd_other _ h01]
+  -- Σ_v Σ_b Σ_a  →  Σ_b Σ_a (Σ_v …)
+  rw [Finset.sum_comm]
+  have : ∀ b ∈ range D, (∑ v ∈ range D, ∑ a ∈ range D,
+      matc v b * (mat v a * ρ (upd (upd idx (2 * m) a) (2 * m + 1) b)))
+      = ρ (upd (upd idx (2 * m) b) (2 * m + 1) b) := by
+    intro b hb
+    rw [Finset.sum_comm]
+    have inner : ∀ a ∈ range D, (∑ v ∈ range D, matc v b * (mat v a * ρ (upd (upd idx (2 * m) a) (2 * m + 1) b)))
+        = (if a = b then 1 else 0) * ρ (upd (upd idx (2 * m) a) (2 * m + 1) b) := by
+      intro a ha
+      rw [← hiso a b (Finset.mem_range.mp ha) (Finset.mem_range.mp hb), Finset.sum_mul]
+      refine Finset.sum_congr rfl fun v _ => ?_
+      ring
+    rw [Finset.sum_congr rfl inner]
+    simp [Finset.sum_ite_eq', hb]
+  rw [Finset.sum_congr rfl this]
+
+end local1
+
+end SFV.Fock
